@@ -1,0 +1,223 @@
+// Verification hook (cargo feature `verif_hooks`, off by default).
+//
+// An `Interceptor` sees every storage operation issued through a hooked
+// `Transport` before it reaches the underlying protocol and after it has
+// returned. It may make the operation fail without touching storage, delay it
+// for as long as it likes (including forever, to simulate a killed process),
+// and observe the reply. Nothing in conserve itself uses this.
+
+use std::path::{Path, PathBuf};
+use std::sync::Arc;
+
+use async_trait::async_trait;
+use bytes::Bytes;
+use url::Url;
+
+use super::protocol::Protocol;
+use super::{DirEntry, Error, ErrorKind, Metadata, Result, Transport, WriteMode};
+
+/// Which transport operation is being performed.
+#[derive(Debug, Clone, Copy, PartialEq, Eq, Hash)]
+pub enum HookVerb {
+    Read,
+    Write,
+    ListDir,
+    CreateDir,
+    Metadata,
+    RemoveFile,
+    RemoveDirAll,
+}
+
+/// One transport operation, with its path relative to the root of the hooked transport.
+#[derive(Debug, Clone)]
+pub struct HookCall {
+    /// Process-unique number of this call, so `before` and `after` can be paired.
+    pub id: u64,
+    pub verb: HookVerb,
+    /// Path relative to the transport the hook was installed on; "" is that root.
+    pub path: String,
+    /// Content being written, for `Write`.
+    pub content: Option<Bytes>,
+    /// Write mode, for `Write`.
+    pub mode: Option<WriteMode>,
+}
+
+/// What an operation returned.
+#[derive(Debug, Clone)]
+pub enum HookReply {
+    Unit,
+    Content(Bytes),
+    Listing(Vec<DirEntry>),
+    Meta(Metadata),
+    Failed(ErrorKind),
+}
+
+#[async_trait]
+pub trait Interceptor: std::fmt::Debug + Send + Sync {
+    /// Called before the operation reaches storage. Returning `Some(kind)` makes
+    /// the operation fail with that error kind without being performed. The future
+    /// may stay pending for as long as the interceptor wants.
+    async fn before(&self, call: &HookCall) -> Option<ErrorKind>;
+
+    /// Called after the operation completed (or was failed by `before`).
+    async fn after(&self, call: &HookCall, reply: &HookReply);
+}
+
+static NEXT_CALL_ID: std::sync::atomic::AtomicU64 = std::sync::atomic::AtomicU64::new(0);
+
+#[derive(Debug)]
+struct HookProtocol {
+    inner: Arc<dyn Protocol>,
+    sub_path: String,
+    interceptor: Arc<dyn Interceptor>,
+}
+
+impl HookProtocol {
+    fn call(
+        &self,
+        verb: HookVerb,
+        relpath: &str,
+        content: Option<&[u8]>,
+        mode: Option<WriteMode>,
+    ) -> HookCall {
+        let mut path = self.sub_path.clone();
+        if !relpath.is_empty() {
+            if !path.is_empty() {
+                path.push('/');
+            }
+            path.push_str(relpath);
+        }
+        HookCall {
+            id: NEXT_CALL_ID.fetch_add(1, std::sync::atomic::Ordering::SeqCst),
+            verb,
+            path,
+            content: content.map(Bytes::copy_from_slice),
+            mode,
+        }
+    }
+
+    async fn finish<T>(
+        &self,
+        call: HookCall,
+        result: Result<T>,
+        summarize: impl FnOnce(&T) -> HookReply,
+    ) -> Result<T> {
+        let reply = match &result {
+            Ok(t) => summarize(t),
+            Err(err) => HookReply::Failed(err.kind()),
+        };
+        self.interceptor.after(&call, &reply).await;
+        result
+    }
+}
+
+fn injected(kind: ErrorKind) -> Error {
+    Error {
+        kind,
+        source: None,
+        url: None,
+    }
+}
+
+#[async_trait]
+impl Protocol for HookProtocol {
+    async fn read(&self, path: &str) -> Result<Bytes> {
+        let call = self.call(HookVerb::Read, path, None, None);
+        let result = match self.interceptor.before(&call).await {
+            Some(kind) => Err(injected(kind)),
+            None => self.inner.read(path).await,
+        };
+        self.finish(call, result, |b| HookReply::Content(b.clone()))
+            .await
+    }
+
+    async fn write(&self, relpath: &str, content: &[u8], mode: WriteMode) -> Result<()> {
+        let call = self.call(HookVerb::Write, relpath, Some(content), Some(mode));
+        let result = match self.interceptor.before(&call).await {
+            Some(kind) => Err(injected(kind)),
+            None => self.inner.write(relpath, content, mode).await,
+        };
+        self.finish(call, result, |_| HookReply::Unit).await
+    }
+
+    async fn list_dir(&self, relpath: &str) -> Result<Vec<DirEntry>> {
+        let call = self.call(HookVerb::ListDir, relpath, None, None);
+        let result = match self.interceptor.before(&call).await {
+            Some(kind) => Err(injected(kind)),
+            None => self.inner.list_dir(relpath).await,
+        };
+        self.finish(call, result, |l| HookReply::Listing(l.clone()))
+            .await
+    }
+
+    async fn create_dir(&self, relpath: &str) -> Result<()> {
+        let call = self.call(HookVerb::CreateDir, relpath, None, None);
+        let result = match self.interceptor.before(&call).await {
+            Some(kind) => Err(injected(kind)),
+            None => self.inner.create_dir(relpath).await,
+        };
+        self.finish(call, result, |_| HookReply::Unit).await
+    }
+
+    async fn metadata(&self, relpath: &str) -> Result<Metadata> {
+        let call = self.call(HookVerb::Metadata, relpath, None, None);
+        let result = match self.interceptor.before(&call).await {
+            Some(kind) => Err(injected(kind)),
+            None => self.inner.metadata(relpath).await,
+        };
+        self.finish(call, result, |m| HookReply::Meta(m.clone()))
+            .await
+    }
+
+    async fn remove_file(&self, relpath: &str) -> Result<()> {
+        let call = self.call(HookVerb::RemoveFile, relpath, None, None);
+        let result = match self.interceptor.before(&call).await {
+            Some(kind) => Err(injected(kind)),
+            None => self.inner.remove_file(relpath).await,
+        };
+        self.finish(call, result, |_| HookReply::Unit).await
+    }
+
+    async fn remove_dir_all(&self, relpath: &str) -> Result<()> {
+        let call = self.call(HookVerb::RemoveDirAll, relpath, None, None);
+        let result = match self.interceptor.before(&call).await {
+            Some(kind) => Err(injected(kind)),
+            None => self.inner.remove_dir_all(relpath).await,
+        };
+        self.finish(call, result, |_| HookReply::Unit).await
+    }
+
+    fn chdir(&self, relpath: &str) -> Arc<dyn Protocol> {
+        let mut sub_path = self.sub_path.clone();
+        if !relpath.is_empty() {
+            if !sub_path.is_empty() {
+                sub_path.push('/');
+            }
+            sub_path.push_str(relpath);
+        }
+        Arc::new(HookProtocol {
+            inner: self.inner.chdir(relpath),
+            sub_path,
+            interceptor: Arc::clone(&self.interceptor),
+        })
+    }
+
+    fn url(&self) -> &Url {
+        self.inner.url()
+    }
+
+    fn local_path(&self) -> Option<PathBuf> {
+        self.inner.local_path()
+    }
+}
+
+impl Transport {
+    /// Open a local transport whose every operation passes through `interceptor`.
+    pub fn local_hooked(path: &Path, interceptor: Arc<dyn Interceptor>) -> Transport {
+        Transport::from_protocol(Arc::new(HookProtocol {
+            inner: Arc::new(super::local::Protocol::new(path)),
+            sub_path: String::new(),
+            interceptor,
+        }))
+    }
+}
